@@ -10,6 +10,10 @@
     receives from, and the loop receives only while it is in its select.  [orig = false]: [OnEvent] appends to a queue
     and signals; the loop takes the whole queue when it is in its select.
 
+    The refresh is in two steps: [SRefresh] writes the query and makes the loop wait ([asked]: the query is at the
+    backend and not yet answered); [SAnswer] is the backend writing the response.  Between the two the backend may
+    write events, which are then AHEAD of the response on the socket.
+
     Properties C14 (every schema event reaches the listeners once, in order) and C16 (a refresh completes). *)
 From Coq Require Import List ZArith NArith Bool Lia.
 From CqlProxy Require Import Lib.Val Lib.Util.
@@ -27,15 +31,17 @@ Record cstate := {
   queue : list N;              (* pendingEvents (repaired code only) *)
   delivered : list N;          (* events the loop has passed to the listeners, oldest first *)
   refreshes : nat;             (* refreshes completed *)
-  lost : bool                  (* the refresh timed out: the connection is closed, what was on it is gone *)
+  lost : bool;                 (* the refresh timed out: the connection is closed, what was on it is gone *)
+  asked : bool                 (* the refresh query is at the backend and not yet answered *)
 }.
 
 Inductive cstep :=
-| SBackend (x : item)          (* the backend writes an event (a response is written only to a query, see SRefresh) *)
+| SBackend (x : item)          (* the backend writes an event (a response is written only to a query, see SAnswer) *)
 | SRead                        (* reader: DecodeFrame *)
 | SHand                        (* reader: OnEvent / deliver the response *)
 | STake                        (* loop: case <-c.events (repaired: take the whole queue) *)
-| SRefresh                     (* loop: case <-refreshTimer.C: query written, the backend will answer *)
+| SRefresh                     (* loop: case <-refreshTimer.C: the query is written, the loop waits for the response *)
+| SAnswer                      (* the backend writes the response to the query *)
 | STimeout.                    (* loop: SendAndReceive's context expires *)
 
 Definition enabled (orig : bool) (s : cstate) (st : cstep) : bool :=
@@ -52,34 +58,36 @@ Definition enabled (orig : bool) (s : cstate) (st : cstep) : bool :=
       end
   | STake => (match lp s with LSelect => true | LWaitResp => false end) && negb orig && (match queue s with [] => false | _ => true end)
   | SRefresh => match lp s with LSelect => true | LWaitResp => false end
+  | SAnswer => asked s
   | STimeout => match lp s with LWaitResp => true | LSelect => false end
   end.
 
 Definition step (orig : bool) (s : cstate) (st : cstep) : cstate :=
   if negb (enabled orig s st) then s else
   match st with
-  | SBackend x => {| socket := socket s ++ [x]; holding := holding s; lp := lp s; queue := queue s; delivered := delivered s; refreshes := refreshes s; lost := false |}
+  | SBackend x => {| socket := socket s ++ [x]; holding := holding s; lp := lp s; queue := queue s; delivered := delivered s; refreshes := refreshes s; lost := false; asked := asked s |}
   | SRead =>
       match socket s with
-      | x :: r => {| socket := r; holding := Some x; lp := lp s; queue := queue s; delivered := delivered s; refreshes := refreshes s; lost := false |}
+      | x :: r => {| socket := r; holding := Some x; lp := lp s; queue := queue s; delivered := delivered s; refreshes := refreshes s; lost := false; asked := asked s |}
       | [] => s
       end
   | SHand =>
       match holding s with
       | Some IResp =>
           {| socket := socket s; holding := None; lp := LSelect; queue := queue s; delivered := delivered s;
-             refreshes := (match lp s with LWaitResp => S (refreshes s) | LSelect => refreshes s end); lost := false |}
+             refreshes := (match lp s with LWaitResp => S (refreshes s) | LSelect => refreshes s end); lost := false; asked := asked s |}
       | Some (IEvent id) =>
-          if orig then {| socket := socket s; holding := None; lp := lp s; queue := queue s; delivered := delivered s ++ [id]; refreshes := refreshes s; lost := false |}
-          else {| socket := socket s; holding := None; lp := lp s; queue := queue s ++ [id]; delivered := delivered s; refreshes := refreshes s; lost := false |}
+          if orig then {| socket := socket s; holding := None; lp := lp s; queue := queue s; delivered := delivered s ++ [id]; refreshes := refreshes s; lost := false; asked := asked s |}
+          else {| socket := socket s; holding := None; lp := lp s; queue := queue s ++ [id]; delivered := delivered s; refreshes := refreshes s; lost := false; asked := asked s |}
       | None => s
       end
-  | STake => {| socket := socket s; holding := holding s; lp := lp s; queue := []; delivered := delivered s ++ queue s; refreshes := refreshes s; lost := false |}
-  | SRefresh => {| socket := socket s ++ [IResp]; holding := holding s; lp := LWaitResp; queue := queue s; delivered := delivered s; refreshes := refreshes s; lost := false |}
-  | STimeout => {| socket := []; holding := None; lp := LSelect; queue := queue s; delivered := delivered s; refreshes := refreshes s; lost := true |}
+  | STake => {| socket := socket s; holding := holding s; lp := lp s; queue := []; delivered := delivered s ++ queue s; refreshes := refreshes s; lost := false; asked := asked s |}
+  | SRefresh => {| socket := socket s; holding := holding s; lp := LWaitResp; queue := queue s; delivered := delivered s; refreshes := refreshes s; lost := false; asked := true |}
+  | SAnswer => {| socket := socket s ++ [IResp]; holding := holding s; lp := lp s; queue := queue s; delivered := delivered s; refreshes := refreshes s; lost := false; asked := false |}
+  | STimeout => {| socket := []; holding := None; lp := LSelect; queue := queue s; delivered := delivered s; refreshes := refreshes s; lost := true; asked := false |}
   end.
 
-Definition cinit : cstate := {| socket := []; holding := None; lp := LSelect; queue := []; delivered := []; refreshes := 0; lost := false |}.
+Definition cinit : cstate := {| socket := []; holding := None; lp := LSelect; queue := []; delivered := []; refreshes := 0; lost := false; asked := false |}.
 Definition crun (orig : bool) (sts : list cstep) : cstate := fold_left (step orig) sts cinit.
 
 (** events the backend has written so far, in order *)
@@ -92,8 +100,10 @@ Definition in_flight (s : cstate) : list N :=
   ++ (match holding s with Some (IEvent id) => [id] | _ => [] end)
   ++ flat_map (fun x => match x with IEvent id => [id] | IResp => [] end) (socket s).
 
-(** nothing but waiting for the time-out can happen although work is pending *)
+(** nothing but waiting for the time-out can happen although work is pending: neither the reader, nor the loop, nor
+    the backend answering a query it has been asked *)
 Definition stuck (orig : bool) (s : cstate) : bool :=
   negb (lost s)
   && (match holding s, socket s, queue s with None, [], [] => false | _, _, _ => true end)
-  && negb (enabled orig s SRead) && negb (enabled orig s SHand) && negb (enabled orig s STake).
+  && negb (enabled orig s SRead) && negb (enabled orig s SHand) && negb (enabled orig s STake)
+  && negb (enabled orig s SAnswer).
